@@ -101,7 +101,18 @@ def declare(pep, rng, name, params, named):
         d = kwargs.pop("d")
         kwargs["partition"] = pep.declare_block_partition(d=d)
     if named:
-        kwargs["name"] = rng.choice(["f", "h", "A_op", "F1", "f_{0}", "h_{1}", "g_{k}", "f_{}", "{0}%d"])
+        nm = rng.choice(["f", "h", "A_op", "F1", "f_{0}", "h_{1}", "g_{k}", "f_{}", "{0}%d"])
+        how = rng.choice(["constructor", "constructor", "set_name", "renamed"])
+        # a name is given at construction, or AFTERWARDS with the documented set_name (possibly replacing an earlier
+        # one): constraint names and table labels carry the name the function has when they are generated (seed C17-11)
+        if how == "constructor":
+            kwargs["name"] = nm
+            return pep.declare_function(get_class(name), **kwargs)
+        if how == "renamed":
+            kwargs["name"] = "old_" + nm
+        func = pep.declare_function(get_class(name), **kwargs)
+        func.set_name(nm)
+        return func
     return pep.declare_function(get_class(name), **kwargs)
 
 
